@@ -346,3 +346,130 @@ def pi(cx):
     cx.need(nfun >= 10, f"PI: only {nfun} functions of the object layer take an absolute position")
     if not nbad:
         cx.ok(None, construct=f"{nfun} functions of the object layer that take an absolute position (buffer + offset, self._offset)", detail="no store whose position or length is a rounding of an absolute position", anchor="typeutils::_to_slot_size")
+
+
+# ------------------------------------------------------------------------------------------ AO own offset tables
+"""AO -- the item-offset table an array handle caches is its OWN array object (C03, C10, C06).
+
+`Array._from_buffer` caches `_offsets` as a live numpy VIEW of the table stored in the buffer; a constructor handle
+caches the table the planner made.  A new object that takes over `value._offsets` of the object it is built from --
+without copying it -- caches a view of the SOURCE's table: a later re-layout of the source (fitting items of other
+sizes) moves the copy's items under its handle, reads then land inside other items and a fitting assignment through
+the copy writes outside the copy.  Rule over array.py: `<p>._offsets` of a parameter p other than self, and locals
+assigned from it, never reach `Info(.., offsets=..)`, `<x>.offsets = ..`, `self._offsets = ..` or a `return` unless a
+copying operation lies on the way (`.copy()`, `np.array(..)`, `list(..)`, an element-wise store `t[...] = ..`).
+Expected count zero; a built-in positive and a built-in negative example are classified on every run."""
+_AO_POSITIVE = '''
+class Array:
+    @classmethod
+    def _inspect_args(cls, *args):
+        value = args[0]
+        if isinstance(value, cls) and not cls._has_refs:
+            offsets = value._offsets
+            offset = value._size
+        return Info(size=offset, offsets=offsets)
+'''
+_AO_NEGATIVE = '''
+class Array:
+    @classmethod
+    def _inspect_args(cls, *args):
+        value = args[0]
+        offsets = np.empty(shape, dtype="int64")
+        if isinstance(value, cls) and not cls._has_refs:
+            offsets[...] = value._offsets
+            other = value._offsets.copy()
+        return Info(size=offset, offsets=offsets, more=other)
+'''
+_AO_COPIES = {"copy", "array", "list", "tuple", "deepcopy", "tolist", "ascontiguousarray"}
+
+
+def _ao_function(fn):
+    params = {a.arg for a in fn.args.args + fn.args.kwonlyargs} - {"self", "cls"}
+    if fn.args.vararg is not None:
+        params.add(fn.args.vararg.arg)
+    # locals bound to (an element of) a parameter: `value = args[0]`
+    changed = True
+    while changed:
+        changed = False
+        for n in own_nodes(fn):
+            if isinstance(n, ast.Assign) and len(n.targets) == 1 and isinstance(n.targets[0], ast.Name) and n.targets[0].id not in params:
+                v = n.value
+                while isinstance(v, ast.Subscript):
+                    v = v.value
+                if isinstance(v, ast.Name) and v.id in params:
+                    params.add(n.targets[0].id)
+                    changed = True
+    T = {}
+
+    def src(e):
+        """None or the text of the foreign table e may be"""
+        if isinstance(e, ast.Attribute) and e.attr == "_offsets" and isinstance(e.value, ast.Name) and e.value.id in params:
+            return norm(e)
+        if isinstance(e, ast.Name):
+            return T.get(e.id)
+        if isinstance(e, ast.IfExp):
+            return src(e.body) or src(e.orelse)
+        if isinstance(e, ast.Call):
+            nm = _callee(e)
+            if nm in _AO_COPIES:
+                return None
+            if nm in ("asarray", "reshape", "view", "transpose", "ravel", "squeeze") :
+                base = e.func.value if isinstance(e.func, ast.Attribute) and not (isinstance(e.func.value, ast.Name) and e.func.value.id in ("np", "numpy")) else (e.args[0] if e.args else None)
+                return src(base) if base is not None else None
+            return None
+        if isinstance(e, ast.Subscript) and isinstance(e.slice, (ast.Slice, ast.Constant)) and getattr(e.slice, "value", None) is Ellipsis:
+            return src(e.value)
+        return None
+
+    changed = True
+    while changed:
+        changed = False
+        for n in own_nodes(fn):
+            if isinstance(n, ast.Assign) and len(n.targets) == 1 and isinstance(n.targets[0], ast.Name):
+                w = src(n.value)
+                if w and n.targets[0].id not in T:
+                    T[n.targets[0].id] = w
+                    changed = True
+    out = []
+    for n in own_nodes(fn):
+        if isinstance(n, ast.Call) and _callee(n) == "Info":
+            for a in list(n.args) + [k.value for k in n.keywords]:
+                w = src(a)
+                if w:
+                    out.append((n, f"Info(.. {norm(a)} ..)", w))
+        elif isinstance(n, ast.Assign):
+            for t in n.targets:
+                if isinstance(t, ast.Attribute) and t.attr in ("offsets", "_offsets"):
+                    w = src(n.value)
+                    if w:
+                        out.append((n, f"{norm(t)} = {norm(n.value)[:50]}", w))
+        elif isinstance(n, ast.Return) and n.value is not None:
+            w = src(n.value)
+            if w:
+                out.append((n, f"return {norm(n.value)[:50]}", w))
+    return out
+
+
+@rule("AO", ["C03", "C10", "C06"], "an array handle's cached item-offset table is its own object: the table of the object a new one is built from is copied, never taken over (a view-made handle's table is a live view of the buffer)")
+def ao(cx):
+    m = cx.m
+    for srctext, want in ((_AO_POSITIVE, 1), (_AO_NEGATIVE, 0)):
+        got = sum(len(_ao_function(fn)) for fn in ast.walk(ast.parse(srctext)) if isinstance(fn, ast.FunctionDef))
+        cx.need(got == want, f"AO: the built-in {'positive' if want else 'negative'} example gives {got} report(s)")
+    mi = m.mod("array")
+    tree = ast.parse(mi.source)
+    _parents(tree)
+    nfun = nbad = nuse = 0
+    for fn in ast.walk(tree):
+        if not isinstance(fn, ast.FunctionDef):
+            continue
+        nfun += 1
+        nuse += sum(1 for n in own_nodes(fn) if isinstance(n, ast.Attribute) and n.attr == "_offsets" and not (isinstance(n.value, ast.Name) and n.value.id == "self"))
+        cls = _enclosing(fn, ast.ClassDef)
+        where = f"array::{(cls.name + '.') if cls is not None else ''}{fn.name}"
+        for node, what, w in _ao_function(fn):
+            nbad += 1
+            cx.bad(f"xobjects/array.py:{node.lineno}", construct=f"{where}: {what}", detail=f"the new object's offset table IS `{w}`, the table cached by the object it is built from (for a handle made by _from_buffer: a live view of the table in the buffer) -- a later re-layout of the source moves the new object's items under its handle: reads land inside other items, a fitting assignment writes outside the object", anchor=where)
+    cx.need(nuse >= 1, "AO: array.py no longer reads the offset table of another object anywhere (the rule has nothing to look at)")
+    if not nbad:
+        cx.ok(None, construct=f"{nfun} functions of array.py, {nuse} read(s) of another object's `_offsets`", detail="each is copied element-wise / read for a value; none is taken over as the new object's table", anchor="array::Array._inspect_args")
